@@ -3,6 +3,11 @@ import CklVerif.Driver.Codec
 namespace Ckl
 open Sx
 
+/-- key function `fn(x) x[0]` used by the sorted-with-key correspondence -/
+def firstOf : Val → Val
+  | .list (k :: _) => k
+  | v => v
+
 def handleValue : Sx → Option Sx
   | .list [.atom "render", v] => do
       let v ← decodeVal v; some (okSx (encStr (render v)))
@@ -14,6 +19,25 @@ def handleValue : Sx → Option Sx
       let v ← decodeVal v; some (okSx (encodeVal v))
   | .list [.atom "decrepr", m, e] => do
       let m ← atomInt? m; let e ← atomNat? e; some (okSx (encStr (decRepr m e)))
+  | .list [.atom "cmp", a, b] => do
+      let a ← decodeVal a; let b ← decodeVal b
+      some (okSx (.list [.atom (toString (compareM decRepr a b)), encBool (vleWith decRepr a b),
+        encBool (vgtWith decRepr a b), encBool (vgeWith decRepr a b)]))
+  | .list [.atom "sorted", v] => do
+      match ← decodeVal v with
+      | .list xs => some (okSx (encodeVal (.list (sortedM vlt id xs))))
+      | _ => none
+  | .list [.atom "sortedk", v] => do
+      match ← decodeVal v with
+      | .list xs => some (okSx (encodeVal (.list (sortedM vlt firstOf xs))))
+      | _ => none
+  | .list [.atom "minmax", v] => do
+      match ← decodeVal v with
+      | .list xs =>
+        match minM vlt id xs, maxM vlt id xs with
+        | some a, some b => some (okSx (.list [encodeVal a, encodeVal b]))
+        | _, _ => some (.list [.atom "none"])
+      | _ => none
   | _ => none
 
 end Ckl
